@@ -32,7 +32,8 @@ struct St {
 
 pub struct Sched {
     st: Mutex<St>,
-    cv: Condvar,
+    /// one condition variable per thread: a hand-over wakes exactly the thread that gets the baton
+    cvs: Vec<Condvar>,
     chooser: Chooser,
 }
 
@@ -44,7 +45,7 @@ impl Sched {
     pub fn new(threads: usize, chooser: Chooser) -> Arc<Sched> {
         Arc::new(Sched {
             st: Mutex::new(St { state: vec![TState::Ready; threads], current: None, owner: BTreeMap::new(), switches: 0, yields: 0 }),
-            cv: Condvar::new(),
+            cvs: (0..threads).map(|_| Condvar::new()).collect(),
             chooser,
         })
     }
@@ -67,7 +68,7 @@ impl Sched {
         let pick = ready[self.choose(ready.len(), "start")];
         st.state[pick] = TState::Running;
         st.current = Some(pick);
-        self.cv.notify_all();
+        self.cvs[pick].notify_one();
     }
 
     /// Worker entry: register on this thread and wait for the baton.
@@ -75,7 +76,7 @@ impl Sched {
         CUR.with(|c| *c.borrow_mut() = Some((self.clone(), me)));
         let mut st = self.st.lock().unwrap();
         while st.current != Some(me) {
-            st = self.cv.wait(st).unwrap();
+            st = self.cvs[me].wait(st).unwrap();
         }
     }
 
@@ -91,7 +92,6 @@ impl Sched {
                 panic!("sim: deadlock — every thread of the parallel section is blocked on a mutex");
             }
             st.current = None;
-            self.cv.notify_all();
             return;
         }
         let next = runnable[self.choose(runnable.len(), kind)];
@@ -102,12 +102,12 @@ impl Sched {
             }
             st.state[next] = TState::Running;
             st.current = Some(next);
-            self.cv.notify_all();
+            self.cvs[next].notify_one();
             if matches!(st.state[me], TState::Done) {
                 return;
             }
             while st.current != Some(me) {
-                st = self.cv.wait(st).unwrap();
+                st = self.cvs[me].wait(st).unwrap();
             }
             st.state[me] = TState::Running;
         }
